@@ -336,6 +336,24 @@ def gen_range_reads(rng, tier, opfmt, payloads=None, extra_n=None):
                  ("I:5", "I:200005"), ("E:200000", "U"), ("I:300000", "U"), ("U", "I:5"), ("I:10", "I:10"), ("E:10", "E:200000")]:
         h.op(opfmt.format(s=s, e=e))
     out.append(("directed-gap", h.script()))
+    # directed: the last section starts within 65534 of u64::MAX (section start + 65534 does not fit)
+    # and holds several lines; every kind of bound on, between and around them
+    for p in (4, 8):
+        for base in (U64 - 10, U64 - MAXD, U64 - MAXD + 1, U64 - 70000):
+            h = Hist(p)
+            h.new()
+            h.push(1000, rng)
+            ts = sorted(set(t for t in (base, base + 3, base + 5, U64 - 1, U64) if base <= t <= U64))
+            for t in ts:
+                h.push(t, rng)
+            vals = sorted(set(v for t in ts for v in (t - 1, t, t + 1) if 0 <= v <= U64))
+            for a in vals:
+                for ks in ("I", "E"):
+                    h.op(opfmt.format(s=f"{ks}:{a}", e="U"))
+                    h.op(opfmt.format(s=f"{ks}:{a}", e=f"I:{U64}"))
+                    h.op(opfmt.format(s=f"{ks}:{a}", e=f"E:{U64}"))
+                    h.op(opfmt.format(s="U", e=f"{ks}:{a}"))
+            out.append((f"last-section-near-max-p{p}-{U64 - base}", h.script()))
     nh = 10 if tier == "quick" else 200
     for i in range(nh):
         p = (payloads or PAYLOADS_SMALL)[i % len(payloads or PAYLOADS_SMALL)]
@@ -371,15 +389,21 @@ def gen_range_reads(rng, tier, opfmt, payloads=None, extra_n=None):
 
 def gen_C02(rng, tier):
     return (full_section_battery("read_all s={s} e={e}") + rebuilt_index_reads_battery(tier, ["read_all s={s} e={e}"])
+            + buffer_end_start_sweep(tier, lambda s: [f"read_all s=I:{s} e=U"])
+            + cursor_alias_battery(tier, lambda T1, T2, L: [f"read_all s=I:{T2} e=U", f"read_all s=I:{T2 - 5} e=I:{L - 2}", f"read_all s=I:{T1} e=E:{T2}"])
             + gen_range_reads(rng, tier, "read_all s={s} e={e}"))
 
 
 def gen_C14(rng, tier):
-    return full_section_battery("n_lines s={s} e={e}") + gen_range_reads(rng, tier, "n_lines s={s} e={e}")
+    # the count is compared with the specification's count of the lines a read of that range must return;
+    # where both the count and the read are asked for (cursor battery) the read is judged as well
+    return (full_section_battery("n_lines s={s} e={e}") + gen_range_reads(rng, tier, "n_lines s={s} e={e}")
+            + cursor_alias_battery(tier, lambda T1, T2, L: [f"n_lines s=I:{T2} e=U", f"read_all s=I:{T2} e=U",
+                                                              f"n_lines s=I:{T2 - 5} e=I:{L - 2}", f"read_all s=I:{T2 - 5} e=I:{L - 2}"]))
 
 
 def gen_C13(rng, tier):
-    out = []
+    out = buffer_end_start_sweep(tier, lambda s: [f"read_first_n n=100000 s=I:{s} e=U"])
     # the read calls APPEND to the caller's vectors: with items already in them the answer is the same
     for p in (0, 4):
         h = Hist(p)
@@ -423,6 +447,9 @@ def gen_C13(rng, tier):
 def gen_C12(rng, tier):
     out = torn_tail_battery(rng)      # accessors after a torn-tail repair (several sections lost)
     acc = ["len", "is_empty", "range", "last_line", "payload_size"]
+    # "the contents" are what a full read returns: accessors and the full read side by side on files
+    # with a section header near the end of a read buffer
+    out += reader_buffer_end_battery(tier, acc + ["read_all s=U e=U"])
     # the smallest series: empty, one line, two lines, each seen again after a reopen
     for p in [0, 1, 2, 3, 4, 8, 40]:
         h = Hist(p)
@@ -592,7 +619,7 @@ def torn_tail_battery(rng):
 
 
 def gen_C03(rng, tier):
-    out = []
+    out = refusals_with_caches_battery(rng, tier, ["files", "len", "range"])
     for h0 in _histories(rng, tier, PAYLOADS_SMALL):
         h = Hist(h0.p, hdr=h0.hdr)
         h.new()
@@ -785,6 +812,82 @@ def reader_buffer_end_battery(tier, ops_after):
                 h.op("close")
             if marker_free(p, [1000, 1000 + 2 * cl + 100000 + cl + 40]):
                 out.append((f"reader-buffer-end-p{p}-b{nb}", h.script()))
+    return out
+
+
+def file_header_len(p, user=b""):
+    c = _gen_consts()
+    return 4 + 4 + len(c["textPre"]) + 1 + len(c["textMid"]) + len(str(p)) + len(c["textPost"]) + len(user)
+
+
+def cursor_alias_battery(tier, targets):
+    """Hidden state in the file cursor: a query must not depend on where the previous one left the file
+    handle.  Positions inside the data region and raw file positions differ by the length of the file
+    header, so the layout is chosen such that a later read starts exactly one file-header length after
+    the point where an earlier query stopped (header padded to a multiple of the line size; the middle
+    section sized so that header + lines + next header = file-header length, give or take 3 lines)."""
+    out = []
+    for p in ([8, 4] if tier == "quick" else [8, 4, 0, 1, 2, 3, 16]):
+        ls = p + 2
+        user = b""
+        while file_header_len(p, user) % ls:
+            user += b"x"
+        HL = file_header_len(p, user) // ls
+        m0 = HL - 2 * lpm(p)
+        if m0 < 4:
+            continue
+        for dm in range(-3, 4):
+            h = Hist(p, hdr=user)
+            h.new()
+            h.pushrun(1000, 1, 2 * HL + 7, 3)
+            T1 = h.last() + 100000
+            h.pushrun(T1, 1, m0 + dm, 4)
+            T2 = h.last() + 100000
+            h.pushrun(T2, 1, HL + 9, 5)
+            if not marker_free(p, [1000, T1, T2, h.last()]):
+                continue
+            prevs = [f"n_lines s=I:1003 e=I:{T1 - 50}", f"read_all s=U e=E:{T1}", f"read_all s=I:1005 e=I:{1000 + HL}",
+                     f"n_lines s=I:1003 e=E:{T1}", f"read_first_n n=3 s=I:{T1} e=U", "last_line",
+                     f"read_all s=I:{T1} e=E:{T2}"]
+            for reopen in (False, True):
+                if reopen:
+                    h.reopen()
+                for pr in prevs:
+                    for tg in targets(T1, T2, h.last()):
+                        h.op(pr)
+                        h.op(tg)
+            out.append((f"cursor-alias-p{p}-dm{dm}", h.script()))
+    return out
+
+
+def buffer_end_start_sweep(tier, fmt, B=None):
+    """Bounded reads whose START is chosen so that a section header begins d = 0..7 lines before the end
+    of the first / of the second 16 KiB read buffer counted from the read's own start (the buffers are
+    aligned to where a read starts, not to the file).  With B: the same alignment inside the cache of
+    bucket size B, which the resampling read goes through (the model appends in quadratic time when
+    caches are attached, so these files are kept just long enough)."""
+    out = []
+    if B:
+        ps, nbs = ([1, 4], (1,)) if tier == "quick" else ([0, 1, 2, 3, 4, 8], (1, 2))
+    else:
+        ps, nbs = ([0, 1, 4] if tier == "quick" else [0, 1, 2, 3, 4, 8]), (1, 2)
+    for p in ps:
+        ls = p + 2
+        cl = -(-16384 // ls)
+        k = B or 1
+        h = Hist(p, caches=[B] if B else [])
+        h.new()
+        H = max(nbs) * cl + 50               # lines of the level that is read in front of the header
+        h.pushrun(1000, 1, k * H, 3)
+        h.pushrun(h.last() + 100000, 1, k * (40 if B else cl + 40), 4)
+        if not marker_free(p, [1000, h.last()]):
+            continue
+        for nb in nbs:
+            for d in range(0, 8):
+                j0 = H - (nb * cl - d)
+                for o in fmt(1000 + k * j0):
+                    h.op(o)
+        out.append((f"buffer-end-start-sweep-p{p}" + (f"-B{B}" if B else ""), h.script()))
     return out
 
 
@@ -1280,8 +1383,44 @@ def spread_battery(ops_after):
     return out
 
 
+def refusals_with_caches_battery(rng, tier, ops_after):
+    """Refused appends (same timestamp, older, far older, wrong payload length) in between accepted
+    ones with downsample caches attached: a refused line must not reach any cache's accumulator, so
+    every bucket completed afterwards - in this session and after a reopen - is that of the accepted lines"""
+    out = []
+    for caches in ([5], [4, 16], [2, 3]):
+        for p in ([4, 0] if tier == "quick" else [0, 1, 2, 4, 8]):
+            h = Hist(p, caches=caches)
+            h.new()
+            t = 1000
+            for i in range(4 * caches[-1] + 3):
+                h.push(t, rng)
+                k = i % 7
+                if k == 2:
+                    h.push(t, rng)                          # same timestamp
+                elif k == 4:
+                    h.push(t - rng.choice([1, 3, 9]), rng)  # a little older
+                elif k == 5 and i > 6:
+                    h.push(max(0, t - 200000), rng)         # far older: would complete a bucket with an old mean
+                elif k == 6:
+                    h.push(t + 1, pl=bytes(p + 1))          # wrong length
+                if i == 2 * caches[-1]:
+                    for o in ops_after:
+                        h.op(o)
+                    h.reopen()
+                t += rng.choice([7, 7, 10, MAXD + 2])
+            for o in ops_after:
+                h.op(o)
+            h.reopen()
+            for o in ops_after:
+                h.op(o)
+            if marker_free(p, h.ts):
+                out.append((f"refusals-with-caches-{'-'.join(map(str, caches))}-p{p}", h.script()))
+    return out
+
+
 def gen_C08(rng, tier):
-    out = spread_battery(["files"])
+    out = spread_battery(["files"]) + refusals_with_caches_battery(rng, tier, ["files"])
     nh = 12 if tier == "quick" else 100
     Bs = [1, 2, 3, 4, 7, 10, 64]
     for i in range(nh):
@@ -1426,7 +1565,7 @@ def gen_C09(rng, tier):
 
 
 def gen_C10(rng, tier):
-    out = []
+    out = buffer_end_start_sweep(tier, lambda s: [f"read_n n=7 s=I:{s} e=U"])
     # the read calls append to the caller's vectors
     for p in (0, 4):
         h = Hist(p)
@@ -1480,7 +1619,7 @@ def gen_C10(rng, tier):
 
 
 def gen_C11(rng, tier):
-    out = []
+    out = buffer_end_start_sweep(tier, lambda s: [f"read_n n=10 s=I:{s} e=U"], B=2)
     # directed: a coarser cache that is LONGER in bytes than a finer one (it needs a
     # section per line): sparse source, neighbouring bucket sizes
     for p, caches, step, count in [(0, [2, 3], 30000, 120), (4, [3, 4], 0, 0), (2, [2, 3, 4], 25000, 90)]:
